@@ -74,7 +74,7 @@ theorem fetch_returns_own_key (v : Ver) (evs : List Ev) (id : Nat) (m : Bytes)
 /-! ## the property -/
 
 /-- the replies contained in a list of deliveries, in order of arrival -/
-def repliesOf (ds : List Delivery) : List Reply := ds.flatMap (·.unit.replies)
+def repliesOf (ds : List Delivery) : List Reply := ds.flatMap (·.burst.replies)
 /-- the reads a list of deliveries is cut into -/
 def chunksOf (ds : List Delivery) : List Bytes := ds.flatMap (·.chunks)
 
